@@ -133,7 +133,9 @@ def main_tail():
     c.ens("False", "always_exits_via_sys_exit")     # falling off the end would print nothing more; main always calls sys.exit
     c.ens_exc("SystemExit",
               "(exc_arg == 0) == forall(0, nfiles(), lambda k: not fatal(k) and not haserr(k))", "status_iff_all_ok")
-    c.ens_exc("SystemExit", "exc_arg == 0 or exc_arg == 1", "status_is_0_or_1")
+    # any non-zero status says "not every file is OK" (the statement asks for 0 iff all OK); it has
+    # to survive the operating system, which keeps the low 8 bits
+    c.ens_exc("SystemExit", "0 <= exc_arg and exc_arg <= 255", "status_fits_in_a_byte")
     c.loop(0, invariant=["forall(0, idx, lambda k: not fatal(k))"], pure=True)
     return c
 
@@ -252,7 +254,7 @@ def discovery_contract(inline=False):
     c.setup = setup
     ACC = "lambda k: w_isfile(k) and w_suffix(k) in ('.c', '.h')"
     c.rais("SystemExit")
-    c.ens_exc("SystemExit", "exc_arg == 1 and exists(0, w_n(), lambda k: not w_exists(k))", "missing_path_aborts_with_1")
+    c.ens_exc("SystemExit", "1 <= exc_arg and exc_arg <= 255 and exists(0, w_n(), lambda k: not w_exists(k))", "missing_path_aborts_with_nonzero_status")
     c.ens(f"len(final('files')) == count(0, w_n(), {ACC})", "exactly_the_c_and_h_files_once_each")
     c.ens("forall(0, w_n(), lambda k: w_exists(k))", "every_path_exists_when_discovery_completes")
     c.ens("glob_calls() == count(0, w_n(), lambda k: w_isdir(k))", "one_glob_per_directory")
